@@ -13,8 +13,13 @@ what it built (which key signed what, what was altered afterwards), never someth
 """
 import base64
 import hashlib
+import contextlib
 import itertools
 import json
+import os
+import shutil
+import tempfile
+import time
 import urllib.parse
 import zlib
 from xml.etree import ElementTree as ET
@@ -110,8 +115,45 @@ CONTEXTS = ["idp", "aa", "aq", "pdp"]
 _state = {}
 
 
+TZS = ("PST8", "AEST-10")  # POSIX TZ strings: UTC-8 and UTC+10, no daylight saving
+
+
+@contextlib.contextmanager
+def _tz(name):
+    """Run the receiver in another time zone (process-wide: TZ + tzset), restored afterwards."""
+    if not name:
+        yield
+        return
+    old = os.environ.get("TZ")
+    os.environ["TZ"] = name
+    time.tzset()
+    try:
+        yield
+    finally:
+        if old is None:
+            os.environ.pop("TZ", None)
+        else:
+            os.environ["TZ"] = old
+        time.tzset()
+
+
 def setup():
     S.install()
+    # the virtual clock must keep holding when the process zone changes
+    from saml2 import time_util
+
+    for tz in (None,) + TZS:
+        with _tz(tz), S.clock(S.NOW0):
+            if tz and time.localtime(0).tm_hour == time.gmtime(0).tm_hour:
+                raise RuntimeError("tzset(%s) had no effect" % tz)
+            got = (int(time.time()), time_util.utc_now(), time_util.instant(),
+                   time_util.time_in_a_while(days=1).timetuple()[:6])
+            want = (S.NOW0, S.NOW0, S.fmt_time(S.NOW0), time.gmtime(S.NOW0 + DAY_S)[:6])
+            if got != want:
+                raise RuntimeError("virtual clock does not hold under TZ=%s: %r != %r" % (tz, got, want))
+
+
+DAY_S = 86400
 
 
 # ------------------------------------------------------------------ keys, certificates, metadata
@@ -418,7 +460,7 @@ DAY = 86400
 
 def mk(service, binding, req, env, relay=None, sigalg=None, det=None, dest=None, version="2.0", off=0, fmt="z",
        raw_instant=None, slack=None, eps=None, receiver="idp", issuer=None, md_variant="plain", validate_cert=None,
-       now=S.NOW0, builder="own", loader=False):
+       now=S.NOW0, builder="own", loader=False, tz=None):
     issuer = issuer if issuer is not None else (S.IDP_ID if receiver == "sp" else S.SP_ID)
     eps = eps if eps is not None else (sp_eps() if receiver == "sp" else std_eps(service))
     ctxs = ["sp"] if receiver == "sp" else CONTEXTS
@@ -429,6 +471,8 @@ def mk(service, binding, req, env, relay=None, sigalg=None, det=None, dest=None,
          "issuer": issuer, "md_variant": md_variant, "md": md_certs(keys) if keys is not None else [],
          "env": env, "relay": relay, "sigalg": sigalg, "det": det, "dest": dest, "version": version,
          "now": now, "builder": builder}
+    if tz:
+        c["tz"] = tz  # the zone the receiving process runs in (not an input of model or specification: both are in UTC)
     if raw_instant is not None:
         c["instant"] = {"raw": raw_instant}
         c["ts"] = None
@@ -641,10 +685,152 @@ def random_cases(rng, n):
                  now=rng.choice([S.NOW0, S.NOW0, S.NOW0 + rng.randint(-10 ** 7, 10 ** 7)]))
 
 
+def tz_cases(rng, tier):
+    """Environment dimension: the IssueInstant window (and a slice of everything else) with the receiving process
+    in a zone west and a zone east of Greenwich.  Model and specification are in UTC; nothing may move."""
+    thorough = tier == "thorough"
+    H = 3600
+    for tz in TZS:
+        for slack in (None, 60) + ((0, 180) if thorough else ()):
+            s = slack or 0
+            offs = set()
+            for sign in (-1, 1):
+                for extra in (-H, -1, 0, 1, 2, 60, H, 5 * H, 8 * H - 1, 8 * H + 1, 10 * H - 1, 10 * H + 1, 14 * H, DAY):
+                    offs.add(sign * (DAY + s + extra))
+                for inside in (0, 1, H, 8 * H, 10 * H, 12 * H, DAY - 10 * H, DAY - 8 * H, DAY - H):
+                    offs.add(sign * inside)
+            for off in sorted(offs):
+                for service in (SERVICES if thorough else ["single_sign_on_service", "single_logout_service", "attribute_service"]):
+                    yield mk(service, "post", REQS["unset"], None, off=off, slack=slack, tz=tz)
+                yield mk("single_sign_on_service", "redirect", REQS["want"], None, *det_fields("valid"), off=off, slack=slack,
+                         dest=S.IDP_SSO_REDIRECT, tz=tz)
+                yield mk("single_logout_service", "soap", REQS["want"], ENV_STATES["valid"], off=off, slack=slack,
+                         dest=S.IDP_SLO_SOAP, tz=tz)
+                yield mk("single_logout_service", "post", REQS["unset"], None, off=off, slack=slack, receiver="sp", tz=tz)
+        for now in (S.NOW0 - 10 ** 7, 951782400, 1774753200, 1793494800):  # incl. instants near DST changes elsewhere
+            for off in (-(DAY + 1), -DAY, -(DAY - 1), 0, DAY - 1, DAY, DAY + 1, -(DAY + 8 * H - 1), DAY + 10 * H - 1):
+                yield mk("single_sign_on_service", "post", REQS["unset"], None, off=off, now=now, tz=tz)
+    for c in random_cases(rng, 300 if not thorough else 3000):
+        c["tz"] = rng.choice(TZS)
+        yield c
+
+
 def gen_cases(rng, tier):
     yield from table_cases()
     yield from directed_cases(rng, tier)
+    yield from tz_cases(rng, tier)
+    yield from history_cases(rng, tier)
     yield from random_cases(rng, 1500 if tier == "quick" else 30000)
+
+
+# ------------------------------------------------------------------ histories on one long-lived receiver
+
+OLD, NEW = "sp", "sp_enc2"
+
+
+def src(name, sp_keys=None, sp2=False):
+    """One metadata source (a file): the SP with the given KeyDescriptors (or not at all), optionally the other
+    member, and always a filler entity so that the document is never empty."""
+    ents = []
+    if sp_keys is not None:
+        ents.append({"entity": S.SP_ID, "keys": [list(k) for k in sp_keys]})
+    if sp2:
+        ents.append({"entity": S.SP2_ID, "keys": [list(k) for k in SP2_KEYS]})
+    ents.append({"entity": "https://filler-%s.verif.example/sp" % name.lower(), "keys": [["signing", "member2"]]})
+    for e in ents:
+        e["certs"] = md_certs([tuple(k) for k in e["keys"]])
+    return {"name": name, "entities": ents}
+
+
+def sig(k):
+    return [("signing", k)]
+
+
+def rq(binding, key, rname="want", service=None, **kw):
+    """A request over `binding` whose signature (detached for Redirect, enveloped otherwise) was made with `key`."""
+    service = service or "single_sign_on_service"
+    if binding == "redirect":
+        c = mk(service, binding, REQS[rname], None, *(det_fields("valid", key=key) if key else det_fields("absent")), **kw)
+    else:
+        c = mk(service, binding, REQS[rname], None if key is None else {"key": key, "corrupt": None, "keyinfo": key}, **kw)
+    for k in ("op", "md", "md_variant"):
+        c.pop(k, None)
+    return {"recv": c}
+
+
+def history(initial, steps, style="old"):
+    return {"op": "history", "receiver": "idp", "style": style, "initial": initial, "steps": steps}
+
+
+def history_cases(rng, tier):
+    thorough = tier == "thorough"
+    A_old, A_new, B_new = src("A", sig(OLD)), src("A", sig(NEW)), src("B", sig(NEW))
+    B_old, C_other = src("B", sig(OLD)), src("C", None, sp2=True)
+    B_enc = src("B", [("encryption", OLD)])
+    X_att = src("X", sig("attacker"))
+    for binding in ("redirect", "post", "soap"):
+        for rname in ("want", "unset", "cert-only", "both"):
+            for style in ("old", "new"):
+                def r(key, **kw):
+                    svc = {"redirect": "single_sign_on_service", "post": "single_sign_on_service",
+                           "soap": "single_logout_service"}[binding]
+                    return rq(binding, key, rname, service=svc, **kw)
+
+                both = [r(OLD), r(NEW)]
+                # source dropped: the SP leaves the federation
+                yield history([A_old], [r(OLD), {"reload": [C_other]}, r(OLD), r(NEW), r(None)], style)
+                # replaced: the SP's metadata moves to another source under a rotated key
+                yield history([A_old], [r(OLD), r(NEW), {"reload": [B_new]}] + both + [{"reload": [A_old]}] + both, style)
+                # same source refreshed in place, key rotated and rotated back
+                yield history([A_old], [{"reload": [A_new]}] + both + [{"reload": [A_old]}] + both + [{"reload": [A_old]}] + both, style)
+                # source added behind / in front of the old one (the first source that knows the issuer answers)
+                yield history([A_old], [{"reload": [A_old, B_new]}] + both + [{"reload": [B_new, A_old]}] + both
+                              + [{"reload": [C_other, A_old]}] + both, style)
+                # a reload that fails half-way keeps the old store (and nothing of the half-imported specification)
+                yield history([A_old], [{"reload": None, "partial": [X_att]}, r(OLD), r("attacker"), {"reload": [B_new]}]
+                              + both + [{"reload": None, "partial": [A_old]}] + both, style)
+                # chain of moves
+                yield history([A_old, C_other], [r(OLD), {"reload": [B_new, C_other]}, r(OLD), {"reload": [C_other]}, r(NEW),
+                                                 {"reload": [A_new]}] + both + [{"reload": [B_old]}] + both, style)
+                # two sources at start, the one with the old key is dropped; then the SP only keeps an encryption key
+                yield history([A_old, B_new], both + [{"reload": [B_new]}] + both + [{"reload": [B_enc]}] + both, style)
+    for _ in range(80 if not thorough else 800):
+        pool = {}
+
+        def rnd_src():
+            name = rng.choice("ABCD")
+            k = rng.choice([OLD, OLD, NEW, NEW, "attacker", None, "enc"])
+            keys = None if k is None else [("encryption", OLD)] if k == "enc" else sig(k)
+            if rng.random() < 0.2 and keys is not None:
+                keys = keys + sig(rng.choice([OLD, NEW]))
+            pool[name] = src(name, keys, sp2=rng.random() < 0.3)
+            return pool[name]
+
+        def rnd_spec():
+            names = []
+            out = []
+            for _i in range(rng.randint(1, 3)):
+                s_ = rnd_src()
+                if s_["name"] not in names:
+                    names.append(s_["name"])
+                    out.append(s_)
+                else:
+                    out[names.index(s_["name"])] = s_
+            return out
+
+        steps = []
+        for _i in range(rng.randint(3, 9)):
+            if rng.random() < 0.4:
+                if rng.random() < 0.15:
+                    steps.append({"reload": None, "partial": rnd_spec()})
+                else:
+                    steps.append({"reload": rnd_spec()})
+            else:
+                b = rng.choice(["redirect", "post", "soap"])
+                steps.append(rq(b, rng.choice([OLD, OLD, NEW, NEW, "attacker", None]), rng.choice(["want", "want", "unset", "cert-only"]),
+                                service=rng.choice(["single_sign_on_service", "single_logout_service"]),
+                                off=rng.choice([0, 0, 0, -(DAY + 1), DAY - 1])))
+        yield history(rnd_spec(), steps, rng.choice(["old", "new"]))
 
 
 def search_cases(rng, broken, build_log):
@@ -697,14 +883,7 @@ def _receiver(case):
         _state[key] = S.make_sp(conf) if recv == "sp" else S.make_idp(conf)
     ent = _state[key]
     if not cfg.get("loader"):
-        c = ent.config
-        ctxs = ["sp"] if recv == "sp" else CONTEXTS
-        for ctx in ctxs:
-            c.setattr(ctx, "endpoints", {case["service"]: [tuple(e) if e[1] is not None else e[0]
-                                                           for e in cfg["eps"].get(ctx, [])]})
-        c.setattr("idp", "want_authn_requests_signed", cfg.get("want"))
-        c.setattr("idp", "want_authn_requests_only_with_valid_cert", cfg.get("cert_only"))
-        c.accepted_time_diff = cfg.get("slack")
+        _apply_cfg(ent, case)
     return ent
 
 
@@ -784,12 +963,24 @@ def transport(xml, binding):
     return soap_wrap(xml)
 
 
-def run_impl(case):
+def _apply_cfg(ent, case):
+    """per-request options set on the live receiver (the same Config.setattr the loader uses)"""
+    cfg = case["cfg"]
+    c = ent.config
+    ctxs = ["sp"] if case["receiver"] == "sp" else CONTEXTS
+    for ctx in ctxs:
+        c.setattr(ctx, "endpoints", {case["service"]: [tuple(e) if e[1] is not None else e[0]
+                                                       for e in cfg["eps"].get(ctx, [])]})
+    c.setattr("idp", "want_authn_requests_signed", cfg.get("want"))
+    c.setattr("idp", "want_authn_requests_only_with_valid_cert", cfg.get("cert_only"))
+    c.accepted_time_diff = cfg.get("slack")
+
+
+def _deliver(ent, case):
     from saml2.response import IncorrectlySigned
     from saml2.s_utils import OtherError, UnravelError, VersionMismatch
     from saml2.validate import MustValueError, NotValid, ShouldValueError
 
-    ent = _receiver(case)
     binding = case["binding"]
     with S.clock(case["now"]):
         xml = build_message_client(case) if case.get("builder") == "client" else build_message(case)
@@ -809,10 +1000,11 @@ def run_impl(case):
                 signed_over = enc if det["msg"] == "M" else transport(xml + "<!-- other -->", binding)
                 kw["signature"] = detached_sign(det["key"], signed_over, det["relay"], det["alg"])
         method = getattr(ent, KINDS[case["service"]][3])
-        try:
-            res = method(enc, BIND[binding], **kw)
-        except (IncorrectlySigned, VersionMismatch, OtherError, UnravelError, NotValid, MustValueError, ShouldValueError) as e:
-            return {"r": "rejected", "err": type(e).__name__}
+        with _tz(case.get("tz")):  # only the receiver runs in the other zone
+            try:
+                res = method(enc, BIND[binding], **kw)
+            except (IncorrectlySigned, VersionMismatch, OtherError, UnravelError, NotValid, MustValueError, ShouldValueError) as e:
+                return {"r": "rejected", "err": type(e).__name__}
     if res is None:
         return {"r": "rejected", "err": "None"}
     if res.message is None or res.message.id is None:
@@ -820,8 +1012,65 @@ def run_impl(case):
     return {"r": "processed"}
 
 
+def _entity_spec(e):
+    if e["entity"] == S.SP_ID:
+        return S.default_sp_entity(spsso=dict(S.default_sp_entity()["spsso"], keys=[tuple(k) for k in e["keys"]]))
+    host = e["entity"].split("/")[2]
+    return {"entity_id": e["entity"], "spsso": {"keys": [tuple(k) for k in e["keys"]],
+                                                "acs": [(S.BINDING_POST, "https://%s/acs" % host, 0)]}}
+
+
+def _md_spec(d, sources, style, extra=()):
+    """write the sources as files (same name = same file = same key in the store) and name them in a specification"""
+    paths = []
+    for s_ in sources:
+        path = os.path.join(d, s_["name"] + ".xml")
+        with open(path, "w", encoding="utf-8") as f:
+            f.write(S.metadata_xml([_entity_spec(e) for e in s_["entities"]]))
+        paths.append(path)
+    paths += list(extra)
+    if style == "new":
+        return [{"class": "saml2.mdstore.MetaDataFile", "metadata": [(p_,) for p_ in paths]}]
+    return {"local": paths}
+
+
+def _run_history(case):
+    """One fresh Server, kept alive over the whole history."""
+    d = tempfile.mkdtemp(prefix="c07hist-")
+    try:
+        conf = S.idp_config()
+        conf["metadata"] = _md_spec(d, case["initial"], case["style"])
+        idp = S.make_idp(conf)
+        outs = []
+        for st in case["steps"]:
+            if "reload" in st:
+                if st["reload"] is None:  # import raises at a missing file, after the sources before it were read
+                    spec = _md_spec(d, st.get("partial", []), case["style"], extra=[os.path.join(d, "no-such-file.xml")])
+                else:
+                    spec = _md_spec(d, st["reload"], case["style"])
+                ok = idp.reload_metadata(spec)
+                outs.append("reloaded" if ok else "reload-failed")
+            else:
+                c = st["recv"]
+                _apply_cfg(idp, c)
+                outs.append(_deliver(idp, c)["r"])
+        return {"steps": outs}
+    finally:
+        shutil.rmtree(d, ignore_errors=True)
+
+
+def run_impl(case):
+    if case["op"] == "history":
+        return _run_history(case)
+    return _deliver(_receiver(case), case)
+
+
 def compare(case, impl, model):
-    return model is not None and impl.get("r") == model.get("r")
+    if model is None:
+        return False
+    if case["op"] == "history":
+        return impl.get("steps") == model.get("steps")
+    return impl.get("r") == model.get("r")
 
 
 def nontrivial(case, impl, lean):
@@ -841,6 +1090,13 @@ def finding_key(case, impl, lean):
 
 
 def shrink(case):
+    if case["op"] == "history":  # drop one step at a time
+        for i in range(len(case["steps"])):
+            c = json.loads(json.dumps(case))
+            del c["steps"][i]
+            yield c
+        return
+
     def with_(**kw):
         c = json.loads(json.dumps(case))
         for k, v in kw.items():
@@ -878,6 +1134,8 @@ def shrink(case):
 
 def neighbours(case, rng):
     """vary one field at a time around a case on which model and implementation disagree"""
+    if case["op"] == "history":
+        return
     for ename, env in ENV_STATES.items():
         c = json.loads(json.dumps(case))
         c["env"] = env
@@ -917,8 +1175,14 @@ def distribution(recs):
     def inc(k, v):
         d[k][v] = d[k].get(v, 0) + 1
 
+    d["history"] = {}
+    d["tz"] = {}
     for r in recs:
         c = r["case"]
+        if c["op"] == "history":
+            inc("history", "%d steps, %d reloads" % (len(c["steps"]), sum(1 for s_ in c["steps"] if "reload" in s_)))
+            continue
+        inc("tz", c.get("tz") or "UTC")
         inc("kind", c["service"])
         inc("binding", c["binding"])
         inc("requirement", "want=%s,cert_only=%s" % (c["cfg"].get("want"), c["cfg"].get("cert_only")))
